@@ -400,6 +400,11 @@ def r2_drop_logging(text, fired):
 
 
 def r1_eta(text, fired):
+    n = len(re.findall(r'\.map\(Into::into\)', text))
+    if n:
+        fired.append('R1 map(Into::into) eta-expanded (%d)' % n)
+        text = re.sub(r'\.map\(Into::into\)', '.map(|v| v.into())', text)
+
     def rep(m):
         fired.append('R1 %s(%s) eta-expanded' % (m.group(1), m.group(2)))
         return '.%s(|e| %s(e))' % (m.group(1), m.group(2))
